@@ -421,7 +421,7 @@ func (g *gen) xrd(o xrdOpts) *genXRD {
 	}
 
 	nv := 1 + g.n(4)
-	if g.p(0.25) {
+	if g.p(0.1) {
 		nv = 1
 	}
 	vi := g.r.Perm(len(versionNames))[:nv]
